@@ -43,3 +43,16 @@
   (forall ((j Int)) (=> (and (<= 0 j) (< j n)) (utf8ok (Token_value (select A (idx off j)))))))
 ;;@ axiom CSUM-nonneg optin trigger=csum :: PROVED (consequence of CSUM-zero and CSUM-mono, lemma L-csum-nonneg): prefix sums of character counts are non-negative
 (assert (forall ((A (Array Int Token)) (off Int) (j Int)) (! (=> (>= j 0) (>= (csum A off j) 0)) :pattern ((csum A off j)))))
+
+; values of the tokens of one type, in order (C05: Atoms(), Separators()):
+;   tcount(A,off,n,t) = number of tokens of type t among the first n
+;   tfilt(A,off,n,t)  = array holding their values at positions 0 .. tcount-1
+(declare-fun tcount ((Array Int Token) Int Int Int) Int)
+(declare-fun tfilt ((Array Int Token) Int Int Int) (Array Int Str))
+;;@ axiom TCOUNT-zero trigger=tcount :: definition of tcount (no tokens)
+(assert (forall ((A (Array Int Token)) (off Int) (t Int)) (! (= (tcount A off 0 t) 0) :pattern ((tcount A off 0 t)))))
+;;@ axiom TCOUNT-step trigger=tcount :: definition of tcount (step); relates existing terms only
+(assert (forall ((A (Array Int Token)) (off Int) (n Int) (t Int)) (! (=> (>= n 0) (= (tcount A off (+ n 1) t) (+ (tcount A off n t) (ite (= (Token_tType (select A (idx off n))) t) 1 0)))) :pattern ((tcount A off (+ n 1) t) (tcount A off n t)))))
+;;@ axiom TFILT-step trigger=tfilt :: definition of tfilt (step): a token of the type is stored at the next free position, others are skipped
+(assert (forall ((A (Array Int Token)) (off Int) (n Int) (t Int)) (! (=> (>= n 0) (= (tfilt A off (+ n 1) t)
+   (ite (= (Token_tType (select A (idx off n))) t) (store (tfilt A off n t) (tcount A off n t) (Token_value (select A (idx off n)))) (tfilt A off n t)))) :pattern ((tfilt A off (+ n 1) t) (tfilt A off n t)))))
